@@ -3,11 +3,19 @@ package props
 // C04 — tasks are isolated: one task never alters another task's rows or position.
 
 import (
+	"fmt"
+	"runtime"
+	"sync"
+	"sync/atomic"
 	"testing"
+	"time"
 
+	"github.com/indexsupply/shovel/jrpc2"
 	"pgregory.net/rapid"
 
 	"verifharness/evid"
+	"verifharness/gen"
+	"verifharness/sim"
 )
 
 func TestC04_Isolation(t *testing.T) {
@@ -16,4 +24,120 @@ func TestC04_Isolation(t *testing.T) {
 		reorgProperty(rt, ev, machineOpts{MaxDecls: 4, Kinds: []string{"log", "tx"}, MaxBatch: 6, MaxConc: 3, InitBlocks: [2]int{3, 8},
 			ShareTable: true, TwoSources: true, SameEvent: true, Filters: true}, "C04")
 	})
+}
+
+// c04Concurrent: the pairs run truly concurrently (one goroutine each, as the
+// manager runs them) against a growing chain, sharing the source client, its
+// segment and head caches and possibly a table. Oracle: afterwards every pair's
+// table is exactly the projection of the chain (nothing lost to, or taken from,
+// a neighbour) and every recorded position carries a head (src_num, src_hash)
+// that the source announced.
+func c04Concurrent(rt *rapid.T, ev *evid.Rec) {
+	o := machineOpts{MaxDecls: 4, Kinds: []string{"log", "tx", "trace"}, MaxBatch: 6, MaxConc: 4, InitBlocks: [2]int{4, 10}, Starts: []string{"one", "mid"},
+		NeedParent: true, SameEvent: true, Filters: true, ShareTable: true}
+	m := newMachine(rt, o)
+	defer m.Close()
+	w := m.w
+	fail := func(f string, a ...any) {
+		rt.Fatalf("VERIF-VIOLATION property=C04 %s\n history:\n   %s", fmt.Sprintf(f, a...), m.History())
+	}
+	for _, s := range w.Sources {
+		// the background head poller is part of the pipeline
+		s.client = jrpc2.New(s.URL).WithPollDuration(time.Millisecond).WithMaxReads(max(1, len(m.decls)))
+	}
+	if err := w.rebuildTasksWithClients(); err != nil {
+		rt.Fatalf("VERIF-INCONCLUSIVE rebuild: %v", err)
+	}
+	procs := rapid.SampledFrom([]int{2, 4, 8}).Draw(rt, "gomaxprocs")
+	old := runtime.GOMAXPROCS(procs)
+	rounds := rapid.IntRange(3, 8).Draw(rt, "rounds")
+	var grows [][][]sim.Tx
+	for i := 0; i < rounds; i++ {
+		var g [][]sim.Tx
+		for j := rapid.IntRange(1, 4).Draw(rt, "grow"); j > 0; j-- {
+			g = append(g, gen.GenTxs(rt, m.copts))
+		}
+		grows = append(grows, g)
+	}
+	var wg sync.WaitGroup
+	stop := make(chan struct{})
+	var panicked atomic.Value
+	for _, p := range w.Pairs {
+		wg.Add(1)
+		go func(p *Pair) {
+			defer wg.Done()
+			for {
+				select {
+				case <-stop:
+					return
+				default:
+				}
+				if v := catch(func() { p.task.Converge() }); v != nil {
+					panicked.Store(fmt.Sprintf("%s: %v", p.Key(), v))
+				}
+				runtime.Gosched()
+			}
+		}(p)
+	}
+	s := w.Sources[0]
+	for _, g := range grows {
+		time.Sleep(time.Duration(1+len(g)) * time.Millisecond)
+		s.Node.Lock()
+		for _, txs := range g {
+			s.Node.Chain.Append(txs)
+		}
+		s.Node.Unlock()
+	}
+	time.Sleep(10 * time.Millisecond)
+	close(stop)
+	wg.Wait()
+	runtime.GOMAXPROCS(old)
+	m.logf("%d pairs ran concurrently over %d growth rounds to head %d (GOMAXPROCS %d)", len(w.Pairs), rounds, s.Node.Chain.Head().Num, procs)
+	if v := panicked.Load(); v != nil {
+		fail("Converge panicked: %v", v)
+	}
+	if msg := m.settle(len(m.decls)+3, nil); msg != "" {
+		if len(msg) > 12 && msg[:12] == "INCONCLUSIVE" {
+			rt.Fatalf("VERIF-INCONCLUSIVE %s", msg)
+		}
+		fail("%s", msg)
+	}
+	rowsTotal := 0
+	for _, p := range w.Pairs {
+		// (the concurrent phase bypassed World.Step: every pair has a configured start)
+		p.First, p.FirstSet = p.Start, true
+		if v := w.CheckPair(p); v != "" {
+			fail("after the concurrent phase: %s", v)
+		}
+		rowsTotal += len(pairRows(w.db.Rows(p.Decl.Table), p.Src.Name, p.Decl.Name))
+	}
+	for _, r := range w.db.Rows("shovel.task_updates") {
+		sh, _ := r["src_hash"].([]byte)
+		sn := numOf(r["src_num"])
+		if len(sh) == 0 {
+			continue
+		}
+		b := s.Node.Chain.At(sn)
+		if r["src_name"] != s.Name {
+			continue
+		}
+		if b == nil || string(b.Hash) != string(sh) {
+			fail("position %v of %v/%v records the head (%d, %x): the source never announced that pair (block %d has hash %x)", r["num"], r["src_name"], r["ig_name"], sn, sh, sn, func() []byte {
+				if b == nil {
+					return nil
+				}
+				return b.Hash
+			}())
+		}
+	}
+	cnt := s.Node.Counts()
+	ev.Case(len(w.Pairs) > 1 && rowsTotal > 0, m.describeConfig()+fmt.Sprint(rounds, procs), fmt.Sprintf("pairs=%d", len(w.Pairs)), fmt.Sprintf("gomaxprocs=%d", procs), fmt.Sprintf("rows>0=%v", rowsTotal > 0))
+	if ev.WantSample(3) {
+		ev.Sample(3, map[string]any{"config": m.describeConfig(), "rounds": rounds, "gomaxprocs": procs, "rpc_counts": cnt, "rows": rowsTotal})
+	}
+}
+
+func TestC04_Concurrent(t *testing.T) {
+	ev := evid.For("C04", "Concurrent")
+	rapid.Check(t, func(rt *rapid.T) { c04Concurrent(rt, ev) })
 }
